@@ -72,7 +72,8 @@ def check(name, checks, tier="quick", seed=0):
     meta_path = os.path.join(SEEDED, name, "meta.json")
     meta = json.load(open(meta_path))
     d = worktree(name)
-    env = dict(os.environ, EINX_VERIF_REPO=d, VERIF_SEED=str(seed))
+    outdir = f"/tmp/seedrun/out-{name}"
+    env = dict(os.environ, EINX_VERIF_REPO=d, VERIF_SEED=str(seed), VERIF_OUT=outdir)
     res = meta.setdefault("detection", {})
     for c in checks:
         t0 = time.time()
@@ -82,8 +83,7 @@ def check(name, checks, tier="quick", seed=0):
         res[c] = {"rc": r.returncode, "caught": r.returncode == 1, "tier": tier, "seed": seed, "mechanisms": mechs, "wall_s": round(time.time() - t0, 1), "summary": (r.stdout.strip().splitlines() or [""])[-1][:200]}
         print(name, c, "CAUGHT" if r.returncode == 1 else f"missed(rc={r.returncode})", res[c]["summary"])
     cleanup(d)
-    # restore evidence files written against the mutant: evidence must describe the unchanged tree
-    sh(f"cd {HERE} && git checkout -- evidence")
+    shutil.rmtree(outdir, ignore_errors=True)  # evidence/replays of the mutant run never touch /verif/evidence
     json.dump(meta, open(meta_path, "w"), indent=1)
 
 
